@@ -22,7 +22,7 @@ CONSTANTS Clients,        \* set of client names
           Handles, Nums,  \* handle ids, request sizes
           Strict, Cool, MaxB, TwoPools, RsvLast,
           MaxOps, MaxCrash, MaxConf, MaxTicks, MaxCaps, TickLen,
-          OpKinds,        \* subset of {"assign","release","relh","relaff"}
+          OpKinds,        \* subset of {"assign","release","relh","relaff","claim"}
           FixIncr
 
 VARIABLES pc,       \* client |-> program counter record ([l |-> "idle"] when between API calls)
@@ -76,7 +76,9 @@ NewBlock(i, owner, seq) ==
      x |-> [o \in 1..BSize |-> [rat |-> -1, q |-> -1]]]
 
 \* garbageCollect: deallocate released ordinals whose cooldown has passed, in ordinal order
-CanDealloc(b, o, t) == b.ords[o + 1].s = "c" /\ (Cool = 0 \/ b.x[o + 1].rat + Cool < t)
+\* rat = -2 marks a stamp made in memory by a call that has not written yet: with the harness's clock (stored
+\* stamps are shifted, in-memory ones are not) such a stamp reads as "released when the write lands"
+CanDealloc(b, o, t) == b.ords[o + 1].s = "c" /\ (Cool = 0 \/ (b.x[o + 1].rat # -2 /\ b.x[o + 1].rat + Cool < t))
 RECURSIVE AppendOrds(_, _, _)
 AppendOrds(q, S, o) == IF o >= BSize THEN q ELSE AppendOrds(IF o \in S THEN Append(q, o) ELSE q, S, o + 1)
 GC(b, t) ==
@@ -104,7 +106,8 @@ AutoAssign(b, n, h) ==
 \* mark ordinals S released at time t, then garbageCollect
 Cooldown(b, S, t) ==
     GC([b EXCEPT !.ords = [i \in 1..BSize |-> IF (i - 1) \in S THEN [s |-> "c"] ELSE b.ords[i]],
-                 !.x = [i \in 1..BSize |-> IF (i - 1) \in S THEN [rat |-> t, q |-> b.bseq] ELSE b.x[i]]], t)
+                 !.x = [i \in 1..BSize |-> IF (i - 1) \in S THEN [rat |-> -2, q |-> b.bseq] ELSE b.x[i]]], t)
+Stamp(b, t) == [b EXCEPT !.x = [i \in 1..BSize |-> IF b.x[i].rat = -2 THEN [b.x[i] EXCEPT !.rat = t] ELSE b.x[i]]]
 Bump(b) == [b EXCEPT !.bseq = @ + 1]                              \* updateBlock increments the sequence number
 
 \* ---- handles ---------------------------------------------------------------------------------------------
@@ -143,3 +146,281 @@ AffVal(h, i, state) == [kind |-> "aff", owner |-> HostAff(h), bk |-> BKey(i), st
 \* blocks whose pool allows the request (filterBlocksByPools(.., poolsAllowedByUse))
 Allowed(call, i) == PoolOK(call, FirstAddr(BCidr(i)))
 WholeRsv(i) == \A o \in 0..(BSize - 1) : Reserved(NthAddr(BCidr(i), o))
+
+\* ---- program counters -----------------------------------------------------------------------------------------
+P0(call, l) == [l |-> l, call |-> call, ctx |-> "", cur |-> 0, rem |-> << >>, nl |-> << >>, owned |-> 0, got |-> {},
+                aff |-> NoneKV, blk |-> NoneKV, hdl |-> NoneKV, nb |-> NoneKV, k |-> {}, inc |-> 0, err |-> "",
+                hrel |-> "", released |-> {}, unalloc |-> {}]
+Need(p) == p.call.num - Cardinality(p.got)
+RetP(p, err) == [p EXCEPT !.l = "ret", !.err = err]
+NextNA(p) == IF Need(p) = 0 \/ p.nl = << >> THEN RetP(p, "")
+             ELSE [p EXCEPT !.l = "n_get", !.cur = Head(p.nl), !.nl = Tail(p.nl)]
+NonAffine(p) == IF Strict \/ Need(p) = 0 THEN RetP(p, "")
+                ELSE NextNA([p EXCEPT !.ctx = "nonaff",
+                                      !.nl = SeqOfSet({ i \in BIdx : Allowed(p.call, i) /\ ~WholeRsv(i) })])
+RECURSIVE FindAffine(_)
+FindAffine(p) ==
+    IF p.rem # << >>
+      THEN IF WholeRsv(Head(p.rem)) THEN FindAffine([p EXCEPT !.rem = Tail(p.rem)])
+           ELSE [p EXCEPT !.l = "a_getaff", !.cur = Head(p.rem), !.rem = Tail(p.rem), !.ctx = "affine"]
+      ELSE IF p.owned >= Cap(p.call) THEN RetP(p, "blocklimit")
+      ELSE [p EXCEPT !.l = "a_listblks", !.ctx = "new"]
+MainLoop(p) == IF Need(p) = 0 THEN RetP(p, "") ELSE FindAffine(p)
+Again(p) == IF p.ctx = "nonaff" THEN NextNA(p) ELSE MainLoop(p)
+RetryGB(p) == IF p.ctx = "affine" THEN [p EXCEPT !.l = "a_getaff"] ELSE [p EXCEPT !.l = "a_crtaff"]
+FailGB(p) == IF p.ctx = "affine" THEN FindAffine(p) ELSE RetP(p, "error")
+StaleGB(p) == IF p.ctx = "affine" THEN FindAffine(p) ELSE IF p.ctx = "claim" THEN RetP(p, "") ELSE [p EXCEPT !.l = "a_listblks"]
+AfterAff(p) == IF p.ctx = "claim" THEN "a_crtblk" ELSE "a_getblk"        \* ClaimAffinity goes straight to claimAffineBlock
+OnErr(p, err) == IF err = "conflict" THEN RetryGB(p) ELSE FailGB(p)
+
+\* assignFromExistingBlock up to the first store call (p.blk holds the block as read)
+AssignFrom(p, H) ==
+    LET g == GC(p.blk.val, now)
+        chk == Strict /\ p.ctx # "nonaff"
+        r == AutoAssign(g, Need(p), p.call.h)
+    IN IF chk /\ g.aff # HostAff(H) THEN Again(p)
+       ELSE IF r.got = {} THEN Again(p)
+       ELSE [p EXCEPT !.l = "a_gethdl", !.nb = r.blk, !.k = r.got,
+                      !.inc = IF FixIncr THEN Cardinality(r.got) ELSE Need(p)]
+HaveBlock(p, H) ==
+    IF p.ctx = "claim" THEN RetP(p, "") ELSE
+    LET q == IF p.ctx = "new" THEN [p EXCEPT !.owned = @ + 1] ELSE p IN
+    IF NumFree(GC(q.blk.val, now)) >= 1 THEN AssignFrom(q, H)
+    ELSE IF q.ctx = "new" THEN RetP(q, "error") ELSE FindAffine(q)
+AfterDec(p) == IF p.err = "conflict" THEN [p EXCEPT !.l = IF p.ctx = "nonaff" THEN "n_get" ELSE "a_requery", !.err = ""]
+               ELSE Again([p EXCEPT !.err = ""])
+HNext(p) == IF p.rem = << >> THEN RetP(p, "") ELSE [p EXCEPT !.l = "h_getblk", !.cur = Head(p.rem), !.rem = Tail(p.rem)]
+
+AffLabels == {"a_getaff", "a_getaff2", "a_confget", "f_getaff"}
+BlkGetLabels == {"a_getblk", "a_getblk2", "a_requery", "n_get", "r_getblk", "h_getblk", "f_getblk"}
+HdlGetLabels == {"a_gethdl", "a_dec_get", "r_gethdl", "h_get", "h_dget"}
+
+\* the store call the client makes at its pc
+EvOf(c, p) ==
+    LET H == HostOf[c]
+        ak == AKey(IF p.call.op = "relaff" THEN p.call.host ELSE H, p.cur)
+        bk == BKey(p.cur)
+        hid == IF p.call.op \in {"assign", "relh"} THEN p.call.h ELSE p.hrel
+        hk == HKey(hid)
+        dec == HSet(p.hdl.val, bk, HGet(p.hdl.val, bk) - p.inc)
+        hdec == IF dec.blocks = << >> THEN Ev(c, "delete", "handle", hk, p.hdl.rev, [kind |-> "handle"])
+                ELSE Ev(c, "update", "handle", hk, p.hdl.rev, dec)
+        owner == IF p.call.op = "relaff" THEN p.call.host ELSE H
+    IN
+    CASE p.l = "a_list" -> ListEv(c, "aff", H)
+      [] p.l = "a_listblks" -> ListEv(c, "block", "")
+      [] p.l \in AffLabels -> Ev(c, "get", "aff", ak, 0, 0)
+      [] p.l \in BlkGetLabels -> Ev(c, "get", "block", bk, 0, 0)
+      [] p.l \in HdlGetLabels -> Ev(c, "get", "handle", hk, 0, 0)
+      [] p.l \in {"a_delstale", "a_delpend", "f_delstale", "f_delaff"} -> Ev(c, "delete", "aff", ak, p.aff.rev, [kind |-> "aff"])
+      [] p.l \in {"a_rc1", "a_affpend", "a_updaff2"} -> Ev(c, "update", "aff", ak, p.aff.rev, AffVal(owner, p.cur, "pending"))
+      [] p.l \in {"a_rc3", "a_confirm"} -> Ev(c, "update", "aff", ak, p.aff.rev, AffVal(owner, p.cur, "confirmed"))
+      [] p.l = "f_mark" -> Ev(c, "update", "aff", ak, p.aff.rev, AffVal(owner, p.cur, "pendingDeletion"))
+      [] p.l = "a_crtaff" -> Ev(c, "create", "aff", ak, 0, AffVal(H, p.cur, "pending"))
+      [] p.l = "a_rc2" -> Ev(c, "update", "block", bk, p.blk.rev, Bump(p.blk.val))
+      [] p.l = "a_crtblk" -> Ev(c, "create", "block", bk, 0, NewBlock(p.cur, HostAff(H), (binc[p.cur] + 1) * 100))
+      [] p.l \in {"a_putblk", "r_putblk", "h_putblk"} -> Ev(c, "update", "block", bk, p.blk.rev, Bump(Stamp(p.nb, now)))
+      [] p.l = "f_updblk" -> Ev(c, "update", "block", bk, p.blk.rev, Bump([p.nb EXCEPT !.aff = ""]))
+      [] p.l \in {"r_delblk", "h_delblk", "f_delblk"} -> Ev(c, "delete", "block", bk, p.blk.rev, [kind |-> "block"])
+      [] p.l = "a_puthdl" ->
+            IF p.hdl.rev = 0 THEN Ev(c, "create", "handle", hk, 0, HVal(hid, << [b |-> bk, n |-> p.inc] >>))
+            ELSE Ev(c, "update", "handle", hk, p.hdl.rev, HSet(p.hdl.val, bk, HGet(p.hdl.val, bk) + p.inc))
+      [] p.l \in {"a_dec_put", "r_puthdl", "h_dput"} -> hdec
+
+\* where the client goes after the call answered e (b = the block chosen by findUsableBlock, 0 = none)
+NextOf(c, p, e, b) ==
+    LET H == HostOf[c]
+        kv == KVOf(e)
+        ok == e.err = ""
+    IN
+    CASE p.l = "a_list" ->
+            LET mine == SelectSeq(e.idx, LAMBDA i : Allowed(p.call, i)) IN
+            MainLoop([p EXCEPT !.rem = mine, !.owned = Len(mine)])
+      [] p.l = "a_getaff" -> IF ok THEN [p EXCEPT !.aff = kv, !.l = "a_getblk"] ELSE FindAffine(p)
+      [] p.l = "a_getblk" ->
+            IF e.err = "notfound" THEN [p EXCEPT !.l = "a_affpend"]
+            ELSE IF ~ok THEN FailGB(p)
+            ELSE LET q == [p EXCEPT !.blk = kv] IN
+                 IF kv.val.aff # HostAff(H) THEN [q EXCEPT !.l = "a_delstale"]
+                 ELSE IF p.aff.val.state # "confirmed" THEN [q EXCEPT !.l = "a_rc1"]
+                 ELSE HaveBlock(q, H)
+      [] p.l = "a_delstale" -> IF ok THEN StaleGB(p) ELSE OnErr(p, e.err)
+      [] p.l = "a_rc1" -> IF ok THEN [p EXCEPT !.aff = kv, !.l = "a_rc2"] ELSE OnErr(p, e.err)
+      [] p.l = "a_rc2" -> IF ok THEN [p EXCEPT !.blk = kv, !.l = "a_rc3"] ELSE OnErr(p, e.err)
+      [] p.l = "a_rc3" -> IF ok THEN HaveBlock([p EXCEPT !.aff = kv], H) ELSE OnErr(p, e.err)
+      [] p.l = "a_affpend" -> IF ok THEN [p EXCEPT !.aff = kv, !.l = "a_crtblk"] ELSE OnErr(p, e.err)
+      [] p.l = "a_crtblk" -> IF ok THEN [p EXCEPT !.blk = kv, !.l = "a_confirm"]
+                             ELSE IF e.err = "exists" THEN [p EXCEPT !.l = "a_getblk2"] ELSE FailGB(p)
+      [] p.l = "a_getblk2" ->
+            IF ~ok THEN FailGB(p)
+            ELSE IF kv.val.aff = HostAff(H) THEN [p EXCEPT !.blk = kv, !.l = "a_confirm"]
+            ELSE [p EXCEPT !.blk = kv, !.l = "a_delpend"]
+      [] p.l = "a_delpend" -> StaleGB(p)
+      [] p.l = "a_confirm" -> IF ok THEN HaveBlock([p EXCEPT !.aff = kv], H) ELSE [p EXCEPT !.l = "a_confget", !.err = e.err]
+      [] p.l = "a_confget" ->
+            IF ok /\ kv.val.state = "confirmed" THEN HaveBlock([p EXCEPT !.aff = kv, !.err = ""], H)
+            ELSE OnErr([p EXCEPT !.err = ""], p.err)
+      [] p.l = "a_gethdl" -> [p EXCEPT !.hdl = IF ok THEN kv ELSE NoneKV, !.l = "a_puthdl"]
+      [] p.l = "a_puthdl" -> IF ok THEN [p EXCEPT !.l = "a_putblk"] ELSE [p EXCEPT !.l = "a_gethdl"]
+      [] p.l = "a_putblk" ->
+            IF ok THEN Again([p EXCEPT !.got = @ \cup { [a |-> AddrOf(p.nb, o), n |-> 32 - BlockBits] : o \in p.k }])
+            ELSE [p EXCEPT !.l = "a_dec_get", !.err = e.err]
+      [] p.l = "a_dec_get" ->
+            IF ok /\ HGet(kv.val, BKey(p.cur)) >= p.inc THEN [p EXCEPT !.hdl = kv, !.l = "a_dec_put"] ELSE AfterDec(p)
+      [] p.l = "a_dec_put" -> IF e.err = "conflict" THEN [p EXCEPT !.l = "a_dec_get"] ELSE AfterDec(p)
+      [] p.l = "a_requery" -> IF ok THEN AssignFrom([p EXCEPT !.blk = kv], H) ELSE MainLoop(p)
+      [] p.l = "n_get" -> IF ok THEN AssignFrom([p EXCEPT !.blk = kv], H) ELSE NextNA(p)
+      [] p.l = "a_listblks" -> IF b = 0 THEN NonAffine(p) ELSE [p EXCEPT !.cur = b, !.l = "a_crtaff"]
+      [] p.l = "a_crtaff" -> IF ok THEN [p EXCEPT !.aff = kv, !.l = AfterAff(p)] ELSE [p EXCEPT !.l = "a_getaff2"]
+      [] p.l = "a_getaff2" ->
+            IF ~ok THEN RetP(p, "error")
+            ELSE IF kv.val.state # "confirmed" THEN [p EXCEPT !.aff = kv, !.l = "a_updaff2"]
+            ELSE [p EXCEPT !.aff = kv, !.l = AfterAff(p)]
+      [] p.l = "a_updaff2" -> IF ok THEN [p EXCEPT !.aff = kv, !.l = AfterAff(p)]
+                              ELSE IF e.err = "conflict" THEN [p EXCEPT !.l = "a_crtaff"] ELSE RetP(p, "error")
+      \* ---- ReleaseIPs (one address) -----------------------------------------------------------------------
+      [] p.l = "r_getblk" ->
+            LET x == p.call.opts[1]  ip == x.ip IN
+            IF e.err = "notfound" THEN RetP([p EXCEPT !.unalloc = {ip}, !.released = {ip}], "")
+            ELSE IF ~ok THEN RetP(p, "error")
+            ELSE LET g == GC(kv.val, now)
+                     o == Ordinal(g.cidr, ip)
+                     r == g.ords[o + 1]
+                 IN IF x.cap # 0 /\ capq[x.cap] # g.x[o + 1].q THEN RetP(p, "badseq")
+                    ELSE IF r.s # "a" THEN RetP([p EXCEPT !.unalloc = {ip}, !.released = {ip}], "")
+                    ELSE IF x.h # "" /\ x.h # r.h THEN RetP(p, "badhandle")
+                    ELSE LET nb == Cooldown(g, {o}, now) IN
+                         [p EXCEPT !.blk = kv, !.nb = nb, !.hrel = r.h, !.inc = 1,
+                                   !.l = IF Empty0(nb) /\ nb.aff = "" THEN "r_delblk" ELSE "r_putblk"]
+      [] p.l \in {"r_putblk", "r_delblk"} ->
+            IF ok THEN [p EXCEPT !.l = "r_gethdl", !.released = {p.call.opts[1].ip}]
+            ELSE IF e.err = "conflict" THEN [p EXCEPT !.l = "r_getblk"] ELSE RetP(p, "error")
+      [] p.l = "r_gethdl" -> IF ok /\ HGet(kv.val, BKey(p.cur)) >= 1 THEN [p EXCEPT !.hdl = kv, !.l = "r_puthdl"] ELSE RetP(p, "")
+      [] p.l = "r_puthdl" -> IF e.err = "conflict" THEN [p EXCEPT !.l = "r_gethdl"] ELSE RetP(p, "")
+      \* ---- ReleaseByHandle ----------------------------------------------------------------------------------
+      [] p.l = "h_get" ->
+            IF ~ok THEN RetP(p, "notfound")
+            ELSE HNext([p EXCEPT !.rem = SeqOfSet({ i \in BIdx : HGet(kv.val, BKey(i)) > 0 })])
+      [] p.l = "h_getblk" ->
+            IF ~ok THEN HNext(p)
+            ELSE LET g == GC(kv.val, now)
+                     S == OwnedBy(g, p.call.h)
+                     nb == Cooldown(g, S, now)
+                 IN IF S = {} THEN HNext(p)
+                    ELSE [p EXCEPT !.blk = kv, !.nb = nb, !.inc = Cardinality(S),
+                                   !.l = IF Empty0(nb) /\ nb.aff = "" THEN "h_delblk" ELSE "h_putblk"]
+      [] p.l = "h_putblk" -> IF ok THEN [p EXCEPT !.l = "h_dget"] ELSE IF e.err = "conflict" THEN [p EXCEPT !.l = "h_getblk"] ELSE RetP(p, "error")
+      [] p.l = "h_delblk" -> IF e.err = "conflict" THEN [p EXCEPT !.l = "h_getblk"] ELSE [p EXCEPT !.l = "h_dget"]
+      [] p.l = "h_dget" -> IF ok /\ HGet(kv.val, BKey(p.cur)) >= p.inc THEN [p EXCEPT !.hdl = kv, !.l = "h_dput"] ELSE HNext(p)
+      [] p.l = "h_dput" -> IF e.err = "conflict" THEN [p EXCEPT !.l = "h_dget"] ELSE HNext(p)
+      \* ---- ReleaseAffinity (one block) ------------------------------------------------------------------------
+      [] p.l = "f_getaff" -> IF ok THEN [p EXCEPT !.aff = kv, !.l = "f_getblk"] ELSE RetP(p, "")
+      [] p.l = "f_getblk" ->
+            IF ~ok THEN RetP(p, "")
+            ELSE LET g == GC(kv.val, now) IN
+                 IF g.aff # "" /\ g.aff # HostAff(p.call.host) THEN [p EXCEPT !.l = "f_delstale"]
+                 ELSE IF p.call.empty /\ ~Empty0(g) THEN RetP(p, "notempty")
+                 ELSE [p EXCEPT !.blk = kv, !.nb = g, !.l = "f_mark"]
+      [] p.l = "f_delstale" -> RetP(p, "")
+      [] p.l = "f_mark" -> IF ok THEN [p EXCEPT !.aff = kv, !.l = IF Empty0(p.nb) THEN "f_delblk" ELSE "f_updblk"]
+                           ELSE IF e.err = "conflict" THEN [p EXCEPT !.l = "f_getaff"] ELSE RetP(p, "error")
+      [] p.l = "f_delblk" -> IF e.err = "conflict" THEN [p EXCEPT !.l = "f_getaff"] ELSE [p EXCEPT !.l = "f_delaff"]
+      [] p.l = "f_updblk" -> IF ok THEN [p EXCEPT !.l = "f_delaff"]
+                             ELSE IF e.err = "conflict" THEN [p EXCEPT !.l = "f_getaff"] ELSE RetP(p, "error")
+      [] p.l = "f_delaff" -> IF e.err = "conflict" THEN [p EXCEPT !.l = "f_getaff"] ELSE RetP(p, "")
+
+\* findUsableBlock's candidates after listing the blocks (any of them: the real order is a hash of the host name)
+Candidates(c, p) ==
+    { i \in BIdx : /\ Allowed(p.call, i) /\ ~WholeRsv(i)
+                   /\ \/ ~Present(st, BKey(i))
+                      \/ (st[BKey(i)].val.aff = HostAff(HostOf[c]) /\ NumFree(GC(st[BKey(i)].val, now)) # 0) }
+
+\* ---- actions ------------------------------------------------------------------------------------------------------
+NoRet == \A c \in Clients : pc[c].l # "ret"
+Busy(c) == pc[c].l \notin {"idle", "ret", "dead"}
+
+Step(c, conf) ==
+    /\ NoRet /\ Busy(c)
+    /\ LET p == pc[c]
+           e0 == EvOf(c, p)
+           e == IF conf THEN [e0 EXCEPT !.inj = "conflict", !.err = "conflict", !.nrev = 0] ELSE e0
+           cands == IF p.l = "a_listblks" THEN Candidates(c, p) ELSE {}
+       IN /\ conf => (e0.op \in {"update", "delete"} /\ budget.conf < MaxConf)
+          /\ Do(e)
+          /\ \E b \in (IF cands = {} THEN {0} ELSE cands) : pc' = [pc EXCEPT ![c] = NextOf(c, p, e, b)]
+          /\ binc' = IF p.l = "a_crtblk" /\ e.err = "" THEN [binc EXCEPT ![p.cur] = @ + 1] ELSE binc
+          /\ budget' = IF conf THEN [budget EXCEPT !.conf = @ + 1] ELSE budget
+    /\ UNCHANGED <<ops, capq>>
+
+RelH == {""} \cup (IF Handles = {} THEN {} ELSE {CHOOSE h \in Handles : TRUE})
+CallsFor(c) ==
+    LET H == HostOf[c] IN
+    (IF "assign" \in OpKinds THEN
+        { [op |-> "assign", host |-> H, h |-> h, num |-> n, use |-> "Workload", ns |-> "", maxb |-> 0, pools |-> << >>] : h \in Handles, n \in Nums }
+     ELSE {}) \cup
+    (IF "release" \in OpKinds THEN
+        { [op |-> "release", opts |-> << [ip |-> a, h |-> hh, cap |-> k] >>] :
+              a \in { x \in Addrs : Gen(BKey(BlockOfAddr(x)), Ordinal(BCidr(BlockOfAddr(x)), x)) > 0 },
+              hh \in RelH, k \in {0} \cup DOMAIN capq }
+     ELSE {}) \cup
+    (IF "relh" \in OpKinds THEN { [op |-> "relh", h |-> h] : h \in Handles } ELSE {}) \cup
+    (IF "claim" \in OpKinds THEN { [op |-> "claim", host |-> H, blk |-> i] : i \in BIdx } ELSE {}) \cup
+    (IF "relaff" \in OpKinds THEN { [op |-> "relaff", host |-> H, blk |-> i, empty |-> m] : i \in BIdx, m \in BOOLEAN } ELSE {})
+FirstLabel(call) == CASE call.op = "assign" -> "a_list" [] call.op = "release" -> "r_getblk"
+                      [] call.op = "relh" -> "h_get" [] call.op = "relaff" -> "f_getaff"
+                      [] call.op = "claim" -> "a_crtaff"
+Start(c, call) ==
+    /\ NoRet /\ pc[c].l = "idle" /\ ops[c] < MaxOps
+    /\ call \in CallsFor(c)
+    /\ call.op = "release" => (call.opts[1].cap # 0 => caps[call.opts[1].cap].ip = call.opts[1].ip)
+    /\ LET e == [x \in DOMAIN call \cup {"c", "t"} |-> IF x = "c" THEN c ELSE IF x = "t" THEN 0 ELSE call[x]] IN
+       /\ Assert(CallOK(e), "call while busy") /\ CallApply(e)
+    /\ pc' = [pc EXCEPT ![c] = [P0(call, FirstLabel(call)) EXCEPT
+                 !.cur = IF call.op = "release" THEN BlockOfAddr(call.opts[1].ip) ELSE IF call.op \in {"relaff", "claim"} THEN call.blk ELSE 0,
+                 !.ctx = IF call.op = "claim" THEN "claim" ELSE ""]]
+    /\ ops' = [ops EXCEPT ![c] = @ + 1]
+    /\ UNCHANGED <<budget, binc, capq>>
+
+RECURSIVE AnySeq(_)
+AnySeq(S) == IF S = {} THEN << >> ELSE LET x == CHOOSE y \in S : TRUE IN <<x>> \o AnySeq(S \ {x})
+RetEv(c, p) ==
+    CASE p.call.op = "assign" -> [t |-> 0, c |-> c, op |-> "assign", ips |-> AnySeq(p.got), err |-> p.err]
+      [] p.call.op = "release" -> [t |-> 0, c |-> c, op |-> "release", released |-> AnySeq(p.released), unalloc |-> AnySeq(p.unalloc), err |-> p.err]
+      [] OTHER -> [t |-> 0, c |-> c, op |-> p.call.op, err |-> p.err]
+Ret(c) ==
+    /\ pc[c].l = "ret"
+    /\ LET e == RetEv(c, pc[c]) IN Assert(RetOK(e), <<"P_IPAM rejects the result", e>>) /\ RetApply(e)
+    /\ pc' = [pc EXCEPT ![c] = Idle]
+    /\ UNCHANGED <<ops, budget, binc, capq>>
+
+Crash(c) ==
+    /\ NoRet /\ Busy(c) /\ budget.crash < MaxCrash
+    /\ CrashApply([c |-> c])
+    /\ pc' = [pc EXCEPT ![c] = [l |-> "dead"]]
+    /\ budget' = [budget EXCEPT !.crash = @ + 1]
+    /\ UNCHANGED <<ops, binc, capq>>
+
+Tick ==
+    /\ NoRet /\ budget.ticks < MaxTicks
+    /\ TickApply(TickLen)
+    /\ budget' = [budget EXCEPT !.ticks = @ + 1]
+    /\ UNCHANGED <<pc, ops, binc, capq>>
+
+Capture(a) ==
+    /\ NoRet /\ budget.caps < MaxCaps
+    /\ LET i == BlockOfAddr(a)  o == Ordinal(BCidr(i), a)  id == budget.caps + 1 IN
+       /\ Present(st, BKey(i)) /\ st[BKey(i)].val.ords[o + 1].s = "a"
+       /\ CaptureApply([id |-> id, ip |-> a])
+       /\ capq' = Put(capq, id, st[BKey(i)].val.x[o + 1].q)
+    /\ budget' = [budget EXCEPT !.caps = @ + 1]
+    /\ UNCHANGED <<pc, ops, binc>>
+
+Next ==
+    \/ \E c \in Clients : Ret(c)
+    \/ \E c \in Clients : Step(c, FALSE) \/ Step(c, TRUE) \/ Crash(c)
+    \/ \E c \in Clients : \E call \in CallsFor(c) : Start(c, call)
+    \/ Tick
+    \/ \E a \in Addrs : Capture(a)
+
+Spec == Init /\ [][Next]_vars
+=============================================================================
